@@ -73,6 +73,7 @@ class World:
         self.scope_classes = set()
         self.opaque_fstrings = True
         self.force_inline = set()
+        self.externals_by_name = {}
         self.call_lemmas = {}           # (caller qual, callee qual) -> (s0, s, v): ghost frame facts assumed before the call
 
     def add(self, con):
@@ -341,7 +342,7 @@ class Task:
                 cls = pr.exc.cls
                 matched = False
                 for (k, cond, post) in con.raises:
-                    if cls is k:
+                    if cls is k or (getattr(con, "raises_subclasses", False) and issubclass(cls, k)):
                         matched = True
                         c.prove(f"{name}/raises:{k.__name__}/cond", cond(SV(c.heap0), **self.spec_args), kind="post")
                         if post is None:
